@@ -417,6 +417,65 @@ Definition recv_client (sid : Z) (t : tx) : list dlv * Z :=
     else recv_inner sid (Z.to_nat (f_len (c_fl c))) (c_in c)
   end.
 
+(* a client Session that HOSTS a Proxy: receive(s, nil, n) with s.proxy active.  A packet that names
+   another device and carries no FlagMultiDevice is handed to Proxy.accept: if that device is one of
+   the proxied clients (prox) it is put on that client's queue as it is (a keep-alive is accepted and
+   dropped) - delivery (device, packet) - else the device error.  Everything else as in handle. *)
+Definition handle_h (prox : Z -> bool) (sid : Z) (p : packet) : list dlv * Z :=
+  if negb ((p_dev p =? 0) || is_nop p) && negb (f_mdev (p_fl p)) && negb (sid =? p_dev p) && prox (p_dev p)
+  then ([mkD (p_dev p) p], 0)
+  else handle sid p.
+
+Fixpoint recv_inner_h (prox : Z -> bool) (sid : Z) (n : nat) (inner : list packet) : list dlv * Z :=
+  match n with
+  | O => ([], 0)
+  | S n' =>
+    match inner with
+    | [] => ([], E_STREAM)
+    | v :: r =>
+      match handle_h prox sid v with
+      | (d, e) => if e =? 0 then (match recv_inner_h prox sid n' r with (d', e') => (d ++ d', e') end) else (d, e)
+      end
+    end
+  end.
+
+(* a container addressed to a proxied client (no FlagMultiDevice) is queued whole for it *)
+Definition cont_packet (c : cont) : packet :=
+  mkP 0 0 (c_dev c) (c_fl c) (c_tags c) (fold_right (fun p a => stream_len p + a) 0 (c_in c)) 0 (c_in c).
+
+Definition recv_host (prox : Z -> bool) (sid : Z) (t : tx) : list dlv * Z :=
+  match t with
+  | TSingle p => handle_h prox sid p
+  | TMulti c =>
+    if c_dev c =? 0 then ([], 0)
+    else if negb (f_mdev (c_fl c)) && negb (sid =? c_dev c) then
+      (if prox (c_dev c) then ([mkD (c_dev c) (cont_packet c)], 0) else ([], E_DEVICE))
+    else if f_len (c_fl c) =? 0 then ([], E_COUNT)
+    else recv_inner_h prox sid (Z.to_nat (f_len (c_fl c))) (c_in c)
+  end.
+
+(* draining towards such a host: the sender is a Session (the server's side of the host) *)
+Fixpoint hdrain_fuel (c : conf) (prox : Z -> bool) (fuel : nat) (st : state) : list step :=
+  match fuel with
+  | O => []
+  | S f =>
+    match session_next c st with
+    | (None, _) => []
+    | (Some t, st') =>
+      match recv_host prox (c_own c) t with
+      | (d, e) =>
+        mkStep t st' d e :: (if is_nil (pending st') then [] else hdrain_fuel c prox f st')
+      end
+    end
+  end.
+Definition hdrain (c : conf) (prox : Z -> bool) (st : state) : list step :=
+  hdrain_fuel c prox (S (length (pending st))) st.
+
+(* what such a host does with packet p arriving on its own: its own handlers, or the queue of the
+   proxied device p names *)
+Definition direct_h (prox : Z -> bool) (i : Z) (p : packet) : list dlv :=
+  fst (handle_h prox i (untag (norm i p))).
+
 (* the client keeps polling: n more calls of next() *)
 Fixpoint pc_polls (c : conf) (n : nat) (st : state) : list step :=
   match n with
@@ -558,7 +617,8 @@ Definition ob (id job dev w : Z) (tags : list Z) (plen size cid : Z) (peek : opt
 
 Inductive case :=
 | CDrain (c : conf) (reg : list Z) (last : Z) (q : list packet) (out : list obs)
-| CProxy (c : conf) (extra : Z) (q : list packet) (out : list obs).   (* a proxyClient queue, polled by its client *)
+| CProxy (c : conf) (extra : Z) (q : list packet) (out : list obs)    (* a proxyClient queue, polled by its client *)
+| CHost (c : conf) (prox : list Z) (last : Z) (q : list packet) (out : list obs).  (* the receiver hosts a Proxy *)
 
 Definition tx_obs_head (t : tx) : bool * Z * Z * Z * flags * list Z * Z * Z * Z :=
   match t with
@@ -610,10 +670,30 @@ Definition step_matches (s : step) (o : obs) : bool :=
     (st_err s =? o_err o)
   end.
 
+(* towards a proxy host the observation is per destination: the host's mux, then each proxied
+   client's queue (in the order of prox): the model's deliveries are grouped the same way *)
+Definition by_dest (i : Z) (prox : list Z) (l : list dlv) : list dlv :=
+  filter mux_visible (filter (fun d => d_sid d =? i) l) ++
+  flat_map (fun x => filter (fun d => (d_sid d =? x) && negb (x =? i)) l) prox.
+
+Definition step_matches_h (i : Z) (prox : list Z) (s : step) (o : obs) : bool :=
+  match tx_obs_head (st_tx s) with
+  | (mu, id, job, dev, fl, tags, pl, sz, cid) =>
+    Bool.eqb mu (o_multi o) && (id =? o_id o) && (job =? o_job o) && (dev =? o_dev o) && flags_eqb fl (o_fl o) &&
+    set_eqb tags (o_tags o) && (pl =? o_plen o) && (cid =? o_cid o) &&
+    (psize (mkP id job dev fl (o_tags o) pl 0 []) =? o_size o) &&
+    peek_eqb (s_peek (st_after s)) (o_peek o) && (len (s_q (st_after s)) =? o_qlen o) &&
+    list_eqb dlv_obs_eqb (by_dest i prox (st_dlv s)) (o_dlv o) &&
+    perm_b (filter stored_frag (filter (fun d => d_sid d =? i) (st_dlv s))) (o_frags o) &&
+    (st_err s =? o_err o)
+  end.
+
 Definition check (c : case) : bool :=
   match c with
   | CDrain cf reg last q out =>
     all2 step_matches (drain cf (fun d => existsb (Z.eqb d) reg) (mkS q None last)) out
   | CProxy cf extra q out =>
     all2 step_matches (pc_drain cf (Z.to_nat extra) (mkS q None 0)) out
+  | CHost cf prox last q out =>
+    all2 (step_matches_h (c_own cf) prox) (hdrain cf (fun d => existsb (Z.eqb d) prox) (mkS q None last)) out
   end.
